@@ -15,7 +15,7 @@ INF = 10000
 HOST_PATHS = ["host-file", "host-cmd", "host-write"]
 PATHS = HOST_PATHS + ["archive", "cleaner", "helper"]
 
-HIST_INV = ["LookupIsUnionInv", "TableIsUnion"]
+HIST_INV = ["LookupIsUnionInv", "TableIsUnion", "LookupBudgetsInv"]
 CONTENT_INV = ["Subsequence", "KeptLinesMatch", "LastMatchKept", "DroppedOnlyWhenBudgetSpent",
                "NoFilterNoHostCollection"]
 
@@ -107,6 +107,23 @@ def random_hist(rng, i):
             hist.append(dict(op="add", k=rng.choice(ALLC + ALLC + ["D1", "D0"]), pats=pats, mx=mx))
         else:
             hist.append(dict(op="get", k=rng.choice(["I1", "I1", "I2", "P", "I3", "P2", "D1", "D0", "D0"]), pats=[], mx=0))
+    r = rng.random()
+    if r < 0.35:
+        # directed shape: the same string registered twice with a larger budget the second time, look-ups with
+        # budgets in between and afterwards, no new string in between
+        k = rng.choice(["P", "P", "I1", "Q1", "K", "I2"])
+        c = rng.choice(["I2"] if k == "I2" else (["I1", "D0"] if k == "I1" else ["I1", "I2", "P", "D1", "D0"]))
+        p = rng.randint(1, npat)
+        lo, hi = rng.choice([(1, 2), (2, 5), (1, INF), (3, 7)])
+        hist += [dict(op="add", k=k, pats=[p], mx=lo), dict(op="get", k=c, pats=[], mx=0, wm=True),
+                 dict(op="add", k=rng.choice([k, k, "P"]), pats=[p], mx=hi), dict(op="get", k=c, pats=[], mx=0, wm=True)]
+    elif r < 0.6:
+        # directed shape: filters on the second spec / its implementation (a datasource built on a parser of the
+        # first spec when g.x), then look-ups on the first spec's datasources
+        g["p2f"], g["x"] = True, True
+        hist += [dict(op="add", k=rng.choice(["P2", "I3"]), pats=[rng.randint(1, npat)], mx=rng.choice([1, INF])),
+                 dict(op="get", k=rng.choice(["P", "I1", "D0"]), pats=[], mx=0),
+                 dict(op="get", k=rng.choice(["I2", "I1"]), pats=[], mx=0, wm=True)]
     return dict(id="randh#%d" % i, g=g, hist=hist)
 
 
@@ -209,6 +226,9 @@ def run(prop, tier):
         ("stale", "Filters", wr("stale.cfg", cfg_text("SpecHist", plan["stale"], HIST_INV)), dict(workers=2), False),
         ("direct", "Filters", wr("direct.cfg", cfg_text("SpecHist", dict(plan["stale"], cache="direct"), HIST_INV)),
          dict(workers=2), False),
+        ("newstring", "Filters", wr("newstring.cfg", cfg_text("SpecHist", dict(np=1, bud=[1, 2], depth=4, cache="newstring",
+                                                                            pats=[[1]]), HIST_INV)),
+         dict(workers=2), False),
         ("emit", "FiltersMC", wr("emit.cfg", cfg_text("SpecH", plan["emit"], HIST_INV, constraint="EmitHist")),
          dict(workers=2, raw_cases=True, coverage=True), True),
         ("sim", "FiltersMC", wr("sim.cfg", cfg_text("SpecS", SIM, HIST_INV, constraint="EmitHist")),
@@ -250,7 +270,14 @@ def run(prop, tier):
             if not res[mod_name].coverage.get(a):
                 raise lib.MachineryError("vacuity: action %s never taken in %s (%s)"
                                          % (a, mod_name, res[mod_name].coverage))
-    models = [res[j[0]] for j in jobs if j[0] not in ("stale", "direct")]
+    ns = res["newstring"]
+    if ns.violation != "LookupBudgetsInv":
+        raise lib.MachineryError("the model with cache rule 'newstring' (flush only for a new filter string) was "
+                                 "expected to violate LookupBudgetsInv; TLC says violation=%s error=%s"
+                                 % (ns.violation, ns.error))
+    print("model: cache rule 'newstring' refuted by TLC: a look-up between two registrations of the same string "
+          "returns the budget the second one raised (LookupBudgetsInv)")
+    models = [res[j[0]] for j in jobs if j[0] not in ("stale", "direct", "newstring")]
 
     # ---- cases ----
     hcases, seen = [], set()
